@@ -369,6 +369,29 @@ def handle_refuted(run, spec, fid, ref, baseline):
             ob['detail'] = 'counter-model did not replay on the real code (encoding imprecision); ' + ob['detail']
 
 
+def _model_refuted_natively(short, rep):
+    """True when the native replay is conclusive: it ran on a well-formed pre-state, evaluated the clause the
+    obligation is about (or, for auxiliary obligations, every postcondition) and found nothing violated."""
+    if not rep or rep.get('error') or rep.get('violated') or not rep.get('pre_state_wellformed'):
+        return False
+    obs = rep.get('observed') or ''
+    if not (obs.startswith('returned') or obs.startswith('raised') or obs.startswith('yielded')):
+        return False
+    ev = rep.get('ensures_evaluated')
+    if short.startswith('Inv.') or short.startswith('on_raise.Same'):
+        return True
+    if short.startswith('ensures['):
+        try:
+            k = int(short[len('ensures['):short.index(']')])
+        except ValueError:
+            return False
+        return ev is not None and k in ev
+    if short.startswith('inv[loop') or short.startswith('decreases['):
+        # auxiliary obligations: conclusive only if the whole postcondition was evaluated natively and the call returned
+        return ev is not None and len(ev) == rep.get('ensures_total') and not obs.startswith('raised')
+    return False
+
+
 def handle_g_refuted(run, fid, gr):
     """finite-scope counter-model of a heap obligation: replay it on the real objects"""
     g = gr['g']
@@ -390,6 +413,14 @@ def handle_g_refuted(run, fid, gr):
             'reproduces on the real code: %s; %s %s' % (gr['name'], rep.get('observed'), '; '.join(rep.get('violated', [])),
                                                          rep.get('note') or ''),
             True, g.get('solver_output')))
+    elif _model_refuted_natively(short, rep):
+        # the real code was run on the model's heap and satisfied the contract: the model only exists in the
+        # encoding (uninterpreted str()/lower()/== of the finite-scope rendering) - undecided, not a violation
+        for ob in run.obligations:
+            if ob['name'] == gr['name']:
+                ob['verdict'] = 'undecided'
+                ob['detail'] = ('finite-scope model did not survive the native replay (real code: %s; contract held): '
+                                'encoding imprecision; ' % rep.get('observed')) + ob['detail']
     else:
         run.add_violation(report.Violation(
             run.prop, gr['name'], {'obligation': short}, witness,
